@@ -88,7 +88,7 @@ def _num(x):
     return Fraction(x)
 
 
-def check(assertions, assumptions, timeout_ms):
+def check(assertions, assumptions, timeout_ms, extra_args=()):
     s = z3.Solver()
     s.add(*assertions)
     for a in assumptions:
@@ -96,7 +96,7 @@ def check(assertions, assumptions, timeout_ms):
     consts = _consts(list(assertions) + list(assumptions))
     text = s.to_smt2()
     text = text.replace('(check-sat)', '')
-    names = [n for n, c in consts.items() if z3.is_int(c) or z3.is_real(c) or z3.is_bool(c)]
+    names = [n for n, c in consts.items() if z3.is_int(c) or z3.is_real(c) or z3.is_bool(c) or z3.is_bv(c)]
     body = '(set-option :produce-models true)\n(set-logic ALL)\n' + text + '\n(check-sat)\n'
     if names:
         body += '(get-value (%s))\n' % ' '.join('|%s|' % n if not re.match(r'^[A-Za-z_][A-Za-z0-9_]*$', n) else n for n in names)
@@ -104,7 +104,7 @@ def check(assertions, assumptions, timeout_ms):
     with open(fn, 'w') as f:
         f.write(body)
     try:
-        p = subprocess.run([CVC5, '--tlimit=%d' % timeout_ms, fn], capture_output=True, text=True, timeout=timeout_ms / 1000.0 + 10)
+        p = subprocess.run([CVC5, '--tlimit=%d' % timeout_ms] + list(extra_args) + [fn], capture_output=True, text=True, timeout=timeout_ms / 1000.0 + 10)
     except subprocess.TimeoutExpired:
         return 'unknown', None
     out = p.stdout.strip()
@@ -130,6 +130,16 @@ def check(assertions, assumptions, timeout_ms):
                     continue
                 if z3.is_bool(c):
                     values.append((c, z3.BoolVal(val == 'true')))
+                elif z3.is_bv(c):
+                    if isinstance(val, str) and val.startswith('#b'):
+                        n = int(val[2:], 2)
+                    elif isinstance(val, str) and val.startswith('#x'):
+                        n = int(val[2:], 16)
+                    elif isinstance(val, list) and val[0] == '_' and val[1].startswith('bv'):
+                        n = int(val[1][2:])
+                    else:
+                        raise ValueError(val)
+                    values.append((c, z3.BitVecVal(n, c.size())))
                 else:
                     fr = _num(val)
                     if z3.is_int(c):
